@@ -52,6 +52,9 @@ pub struct Pools {
 
 const VALUES_FULL: &[&str] = &[
     "v", "", "a b", "a=b", "{oq}", "l1\nl2", "skip", "unwrap-block", "/tl", "{ds}", "x  y",
+    // characters whose code point ends in the byte of '"' (U+2122), '\'' (U+5927), ' ' (U+2020),
+    // '=' (U+203D) and '\n' (U+010A): a byte-wise comparison of characters confuses them
+    "A™ 大阪†‽Ċ z",
 ];
 
 fn pools(tier: Tier, k: usize) -> Pools {
@@ -98,7 +101,7 @@ fn pools(tier: Tier, k: usize) -> Pools {
             delims: vec![("<", ">"), ("<!-- <", "> -->")],
             names: vec!["tl", "/tl", "名"],
             anames: vec!["to", "c", "skip", "*"],
-            values: vec!["v", "", "a b", "a=b", "{oq}", "l1\nl2", "skip", "{ds}"],
+            values: vec!["v", "", "a b", "a=b", "{oq}", "l1\nl2", "skip", "{ds}", "A™ 大阪†‽Ċ z"],
             eqs: vec!["=", " = "],
             pads: vec!["", " "],
             ..full
@@ -326,6 +329,7 @@ const OPAQUE_VALUES: &[&str] = &[
     "{ds}/tl",
     "{ds}tl to='2000-01-01 00:00:00'",
     "it's",
+    "A™ skip 大 skip †skip",
     "=",
     "  ",
     "",
